@@ -318,7 +318,12 @@ func (l *layout) prep() error {
 			return err
 		}
 	}
-	if l.c.Prim == "fetch" || l.c.Prim == "unpack" {
+	if l.c.Prim == "unpack" && l.c.Layout == "xdev" {
+		// the registry's tmp directory lies on another file system (a mount point or, as here, a symbolic link)
+		if err := os.Symlink(l.c.Tmpdir, filepath.Join(l.pub, "tmp")); err != nil {
+			return err
+		}
+	} else if l.c.Prim == "fetch" || l.c.Prim == "unpack" {
 		if err := os.MkdirAll(filepath.Join(l.pub, "tmp"), 0o700); err != nil {
 			return err
 		}
@@ -721,6 +726,13 @@ func (l *layout) prepared(gen int) (func() error, func(), error) {
 			return nil, nil, err
 		}
 		reg.SelectVersions()
+		if c.Layout == "xdev" {
+			// Initialize has removed and re-created the tmp directory: now it becomes the link to the other file system
+			_ = os.RemoveAll(filepath.Join(l.pub, "tmp"))
+			if err := os.Symlink(c.Tmpdir, filepath.Join(l.pub, "tmp")); err != nil {
+				return nil, nil, err
+			}
+		}
 		return func() error { return reg.UnpackResources() }, nop, nil
 	}
 	return nil, nil, fmt.Errorf("unknown primitive %q", c.Prim)
@@ -1020,12 +1032,24 @@ func (l *layout) event(c call) map[string]any {
 		return ""
 	}
 	str := func(i int) string { s, _ := unquote(arg(i)); return s }
+	// one name per file: the registry's tmp directory may be a link to a directory on another file system
+	canon := func(p string) string {
+		if l.c.Prim == "unpack" && l.c.Layout == "xdev" {
+			link := filepath.Join(l.pub, "tmp")
+			if p == link || under(p, link) {
+				return l.c.Tmpdir + strings.TrimPrefix(p, link)
+			}
+		}
+		return p
+	}
 	set := func(p string) bool {
+		p = canon(p)
 		lc := l.loc(p)
 		ev["path"], ev["loc"], ev["p"] = l.comps(p), lc, p
 		return lc != "ext"
 	}
 	set2 := func(p string) bool {
+		p = canon(p)
 		lc := l.loc(p)
 		ev["path2"], ev["loc2"], ev["p2"] = l.comps(p), lc, p
 		return lc != "ext"
@@ -1306,6 +1330,11 @@ func runOne(h int, s script, work string, tr *vio.Trace) {
 		<-waited
 		fail("timeout", errors.New(stderr.String()))
 		return
+	}
+	if dbg := os.Getenv("VERIF_C17_KEEPLOG"); dbg != "" {
+		if b, rerr := os.ReadFile(logPath); rerr == nil {
+			_ = os.WriteFile(dbg, b, 0o644)
+		}
 	}
 	res, err := l.convert(logPath)
 	if err != nil {
